@@ -92,8 +92,27 @@ def removeItem (k : ItemKind) (x : String) : List ItemSig → Option (ItemSig ×
       | some (j, rest) => some (j, i :: rest)
       | none => none
 
-/-- `compare_trait_items` (validate.rs:59-115) -/
-def compareTraitItems : List ItemSig → List ItemSig → Except Diag Unit
+/-- the look-up tables `second_consts` / `second_types` / `second_fns` of `compare_trait_items` and `compare_inherent_items`
+    (three `IndexMap`s keyed by identifier, here ONE list keyed by (kind, identifier)), as they are after the
+    `second.iter().for_each(… insert …)` loop: `IndexMap::insert` of a key that is already present overwrites the VALUE and
+    keeps the POSITION of the first insertion, so an item name that occurs several times in one block (the same item under
+    complementary `cfg` attributes) gives ONE entry: at the position of the first occurrence, with the value of the last.
+    Written as a structural recursion from the right: the map of `i :: is` is the map of `is` with the entry of `i`'s key
+    (if any: it holds the last value) moved to the front, else with `i` put in front.
+    `itemMap_eq_foldl_insert` (Lemmas/ValidateLemmas.lean) proves it equal to `second.foldl insertItem []`, the literal
+    left-to-right loop of `IndexMap::insert`s (same entries in the same order).
+    A list without duplicate (kind, identifier) pairs is its own map (`itemMap_of_nodup`). -/
+def itemMap : List ItemSig → List ItemSig
+  | [] => []
+  | i :: is =>
+      match removeItem i.kind i.ident (itemMap is) with
+      | some (j, rest) => j :: rest
+      | none => i :: itemMap is
+
+/-- the loop of `compare_trait_items` over the trait items, `second` being the look-up table (`itemMap`).
+    (`removeItem` keeps the order of the remaining entries where `swap_remove` moves the last entry into the gap: the
+    order only decides WHICH left-over entry is reported, never the message.) -/
+def compareTraitItemsLoop : List ItemSig → List ItemSig → Except Diag Unit
   | [], second =>
       if second.any (fun i => i.kind = .other) then .error .notSupported
       else if second.isEmpty then .ok () else .error .notInTrait
@@ -102,11 +121,17 @@ def compareTraitItems : List ItemSig → List ItemSig → Except Diag Unit
       else if t.kind = .other then .error .notSupported
       else match removeItem t.kind t.ident second with
         | some (s, rest) =>
-            if t.kind = .const ∧ t.arity ≠ s.arity then .error .noMatch else compareTraitItems ts rest
-        | none => if t.hasDefault then compareTraitItems ts second else .error .missing
+            if t.kind = .const ∧ t.arity ≠ s.arity then .error .noMatch else compareTraitItemsLoop ts rest
+        | none => if t.hasDefault then compareTraitItemsLoop ts second else .error .missing
 
-/-- `compare_inherent_items` (validate.rs:117-169) -/
-def compareInherentItems : List ItemSig → List ItemSig → Except Diag Unit
+/-- `compare_trait_items` (validate.rs:84-140): the items of the block are first entered into the look-up table
+    (a repeated name overwrites), then every trait item removes its entry -/
+def compareTraitItems (ts second : List ItemSig) : Except Diag Unit :=
+  compareTraitItemsLoop ts (itemMap second)
+
+/-- the loop of `compare_inherent_items` over the items of the FIRST block (a slice: repeated names are NOT merged there),
+    `second` being the look-up table of the other block -/
+def compareInherentItemsLoop : List ItemSig → List ItemSig → Except Diag Unit
   | [], second =>
       if second.any (fun i => i.kind = .other) then .error .notSupported
       else if second.isEmpty then .ok () else .error .notInOneImpl
@@ -115,8 +140,12 @@ def compareInherentItems : List ItemSig → List ItemSig → Except Diag Unit
       else if f.kind = .other then .error .notSupported
       else match removeItem f.kind f.ident second with
         | some (s, rest) =>
-            if f.kind = .const ∧ f.arity ≠ s.arity then .error .genericsMismatch else compareInherentItems fs rest
+            if f.kind = .const ∧ f.arity ≠ s.arity then .error .genericsMismatch else compareInherentItemsLoop fs rest
         | none => .error .notInOneImpl
+
+/-- `compare_inherent_items` (validate.rs:142-194) -/
+def compareInherentItems (fs second : List ItemSig) : Except Diag Unit :=
+  compareInherentItemsLoop fs (itemMap second)
 
 def firstError : List (Except Diag Unit) → Except Diag Unit
   | [] => .ok ()
